@@ -21,6 +21,7 @@ import (
 	"strconv"
 	"strings"
 	"sync"
+	"sync/atomic"
 	"testing"
 	"time"
 
@@ -47,7 +48,7 @@ type c15Lk struct {
 }
 type c15Ann struct {
 	P c15Peer
-	M int // 1: NewStream fails, 2: WriteMsg fails
+	M int // 1: NewStream fails at once, 2: WriteMsg fails at once, 3: delivered, but the write takes a while (network latency)
 }
 type c15Entry struct {
 	E []byte
@@ -67,6 +68,11 @@ type c15Event struct {
 type c15In struct {
 	Probes []common.Address
 	Evs    []c15Event
+	// concurrent run: goroutine i repeats Conc[i] (connected / add / disconnected over addresses that
+	// no other list mentions) for RunMs milliseconds, Readers goroutines keep reading the views
+	Conc    [][]c15Event `json:",omitempty"`
+	Readers int          `json:",omitempty"`
+	RunMs   int          `json:",omitempty"`
 }
 type c15Rec struct {
 	A common.Address
@@ -101,6 +107,8 @@ type c15Call struct {
 	ch chan c15Res
 }
 type c15World struct {
+	quiet       bool          // concurrent runs: effects are not recorded
+	latency     time.Duration // duration of a mode-3 write
 	mu          sync.Mutex
 	eff         []c15Eff
 	lk          map[c15Peer][]byte
@@ -114,7 +122,9 @@ type c15World struct {
 
 func (w *c15World) record(e c15Eff) {
 	w.mu.Lock()
-	w.eff = append(w.eff, e)
+	if !w.quiet {
+		w.eff = append(w.eff, e)
+	}
 	w.mu.Unlock()
 }
 
@@ -129,14 +139,24 @@ func (w *c15World) GetPeerInfo(p p2p.Peer) ([]byte, error) {
 }
 
 // p2p.Streamer
-func (w *c15World) NewStream(_ context.Context, p p2p.Peer, _ p2p.Header, _ p2p.StreamDesc) (p2p.Stream, error) {
+// Like the real transport, the fake honours its context: nothing is opened or written once the
+// context is cancelled, and a slow write is abandoned when the context is cancelled meanwhile.
+func (w *c15World) NewStream(ctx context.Context, p p2p.Peer, _ p2p.Header, _ p2p.StreamDesc) (p2p.Stream, error) {
+	if err := ctx.Err(); err != nil {
+		return nil, err
+	}
 	w.mu.Lock()
 	m := w.ann[c15FromPeer(p)]
+	lat := w.latency
 	w.mu.Unlock()
 	if m == 1 {
 		return nil, errors.New("c15: cannot open stream")
 	}
-	return &c15OutStream{w: w, to: c15FromPeer(p), failWrite: m == 2}, nil
+	st := &c15OutStream{w: w, to: c15FromPeer(p), failWrite: m == 2}
+	if m == 3 {
+		st.latency = lat
+	}
+	return st, nil
 }
 
 // discovery.P2PService
@@ -158,10 +178,21 @@ type c15OutStream struct {
 	w         *c15World
 	to        c15Peer
 	failWrite bool
+	latency   time.Duration
 }
 
 func (s *c15OutStream) ReadMsg(context.Context, proto.Message) error { return io.EOF }
-func (s *c15OutStream) WriteMsg(_ context.Context, m proto.Message) error {
+func (s *c15OutStream) WriteMsg(ctx context.Context, m proto.Message) error {
+	if err := ctx.Err(); err != nil {
+		return err
+	}
+	if s.latency > 0 {
+		select {
+		case <-ctx.Done():
+			return ctx.Err()
+		case <-time.After(s.latency):
+		}
+	}
 	pl, ok := m.(*discoverypb.PeerList)
 	if !ok {
 		s.w.record(c15Eff{K: "wire", To: &s.to, W: []c15Entry{{E: []byte("not a PeerList")}}})
@@ -275,7 +306,7 @@ type c15Sys struct {
 
 func c15New(probes []common.Address, slow int) *c15Sys {
 	logger := slog.New(slog.NewTextHandler(io.Discard, nil))
-	w := &c15World{lk: map[c15Peer][]byte{}, ann: map[c15Peer]int{}}
+	w := &c15World{lk: map[c15Peer][]byte{}, ann: map[c15Peer]int{}, latency: 5 * time.Millisecond * time.Duration(slow)}
 	topo := topology.New(w, logger)
 	disc := discovery.New(&c15Topo{w: w, inner: topo}, w, logger)
 	topo.SetAnnouncer(&c15Tee{w: w, inner: disc})
@@ -459,11 +490,81 @@ func (s *c15Sys) finish() []c15ObsEv {
 }
 
 func c15Run(in c15In, slow int) []c15ObsEv {
+	if len(in.Conc) > 0 {
+		return c15RunConc(in, slow)
+	}
 	s := c15New(in.Probes, slow)
 	for _, ev := range in.Evs {
 		s.apply(ev)
 	}
 	return s.finish()
+}
+
+// c15RunConc drives one real Topology (wired as always) from several goroutines. Every call is
+// made under a watchdog: if the goroutines have not all returned 5 s (x VERIF_SLOW) after they were
+// told to stop, the run is a hang (nil observation) and the stuck system is abandoned.
+func c15RunConc(in c15In, slow int) []c15ObsEv {
+	s := c15New(in.Probes, slow)
+	s.w.quiet = true
+	var stop atomic.Bool
+	var wg sync.WaitGroup
+	for _, list := range in.Conc {
+		list := list
+		wg.Add(1)
+		go func() {
+			defer wg.Done()
+			for pass := 0; pass == 0 || !stop.Load(); pass++ {
+				for _, ev := range list {
+					switch ev.K {
+					case "connected":
+						s.w.mu.Lock()
+						for _, l := range ev.Lk {
+							s.w.lk[l.P] = l.U
+						}
+						s.w.mu.Unlock()
+						s.topo.Connected(ev.P.peer())
+					case "add":
+						var ps []p2p.Peer
+						for _, p := range ev.Ps {
+							ps = append(ps, p.peer())
+						}
+						s.topo.AddPeers(ps...)
+					case "disconnected":
+						s.topo.Disconnected(ev.P.peer())
+					}
+				}
+			}
+		}()
+	}
+	for i := 0; i < in.Readers; i++ {
+		wg.Add(1)
+		go func() {
+			defer wg.Done()
+			for !stop.Load() {
+				_ = s.topo.GetPeers(topology.Query{Type: p2p.PeerTypeProvider})
+				_ = s.topo.GetPeers(topology.Query{Type: p2p.PeerTypeBidder})
+				for _, a := range s.probes {
+					_ = s.topo.IsConnected(a)
+				}
+			}
+		}()
+	}
+	time.Sleep(time.Duration(in.RunMs) * time.Millisecond)
+	stop.Store(true)
+	done := make(chan []c15ObsEv, 1)
+	go func() {
+		wg.Wait()
+		s.apply(c15Event{K: "observe"})
+		done <- s.obs
+	}()
+	select {
+	case obs := <-done:
+		_ = s.disc.Close()
+		obs[0].Eff = nil
+		return obs
+	case <-time.After(5 * time.Second * time.Duration(slow)):
+		return nil // stuck; the goroutines are left behind
+	}
 }
 
 // --- Coq terms ------------------------------------------------------------------------------------
@@ -553,8 +654,15 @@ func c15CoqCase(id int, in c15In, obs []c15ObsEv) string {
 	for _, a := range in.Probes {
 		pr = append(pr, c15Addr(a))
 	}
+	mode := 0
 	for _, ev := range in.Evs {
 		evs = append(evs, c15CoqEvent(ev))
+	}
+	for _, list := range in.Conc { // one linearisation: every goroutine's list once, in turn
+		mode = 1
+		for _, ev := range list {
+			evs = append(evs, c15CoqEvent(ev))
+		}
 	}
 	for _, o := range obs {
 		var eff, views, conn []string
@@ -583,7 +691,7 @@ func c15CoqCase(id int, in c15In, obs []c15ObsEv) string {
 			c15N.bind("c", "(("+coqList(conn)+") : list bool)"), c15N.bind("g", "(("+coqList(api)+") : list (list addr))")))
 	}
 	roles := coqList([]string{coqZ(int64(p2p.PeerTypeBootnode)), coqZ(int64(p2p.PeerTypeProvider)), coqZ(int64(p2p.PeerTypeBidder))})
-	body := coqRecord("id", coqN(uint64(id)), "c_roles", roles, "probes", coqList(pr), "evs", coqList(evs), "obs", coqList(os))
+	body := coqRecord("id", coqN(uint64(id)), "c_mode", coqN(uint64(mode)), "c_roles", roles, "probes", coqList(pr), "evs", coqList(evs), "obs", coqList(os))
 	return "(" + strings.Join(c15N.defs, "") + body + ")"
 }
 
@@ -664,6 +772,8 @@ func (p *c15Pool) tables(r *rand.Rand, lkFail, annFail int) ([]c15Lk, []c15Ann) 
 		}
 		if r.Intn(100) < annFail {
 			ann = append(ann, c15Ann{q, 1 + r.Intn(2)})
+		} else if r.Intn(100) < 4 {
+			ann = append(ann, c15Ann{q, 3})
 		}
 	}
 	return lk, ann
@@ -777,6 +887,80 @@ func c15Random(r *rand.Rand, w c15Weights, slow int) (c15In, []c15ObsEv) {
 	return in, s.finish()
 }
 
+// A provider connects while several bidders are known; the announcement to one bidder fails at
+// once, the deliveries to the others take a while: they must still arrive.
+func c15AnnounceCtx(r *rand.Rand, slow int) (c15In, []c15ObsEv) {
+	pool := c15NewPool(r)
+	in := c15In{Probes: pool.probes}
+	var lk []c15Lk
+	for _, q := range pool.peers {
+		lk = append(lk, c15Lk{q, c15Underlay(q)})
+	}
+	nb := 2 + r.Intn(2)
+	for i := 0; i < nb; i++ {
+		q := pool.peers[3+i]
+		in.Evs = append(in.Evs, c15Event{K: "connected", P: &q, Lk: lk})
+	}
+	if r.Intn(2) == 0 {
+		q := pool.peers[1]
+		in.Evs = append(in.Evs, c15Event{K: "connected", P: &q, Lk: lk})
+	}
+	prov := pool.peers[0]
+	bad := r.Intn(nb)
+	var ann []c15Ann
+	for i := 0; i < nb; i++ {
+		if i == bad {
+			ann = append(ann, c15Ann{pool.peers[3+i], 1 + r.Intn(2)})
+		} else {
+			ann = append(ann, c15Ann{pool.peers[3+i], 3})
+		}
+	}
+	if r.Intn(3) == 0 {
+		ann = append(ann, c15Ann{prov, 3})
+	}
+	in.Evs = append(in.Evs, c15Event{K: "connected", P: &prov, Lk: lk, Ann: ann})
+	for k := r.Intn(3); k > 0; k-- {
+		q := pool.pick(r)
+		if r.Intn(2) == 0 {
+			in.Evs = append(in.Evs, c15Event{K: "disconnected", P: &q})
+		} else {
+			l, a := pool.tables(r, 20, 20)
+			in.Evs = append(in.Evs, c15Event{K: "connected", P: &q, Lk: l, Ann: a})
+		}
+	}
+	return in, c15Run(in, slow)
+}
+
+// Concurrent traffic on one Topology: every writer owns two addresses (in both roles).
+func c15Concurrent(r *rand.Rand, runMs int) c15In {
+	in := c15In{Readers: 2, RunMs: runMs}
+	for g := 0; g < 4; g++ {
+		a1, a2 := c15RandAddr(r), c15RandAddr(r)
+		a1[1], a2[1] = byte(2*g+1), byte(2*g+2) // distinct across writers
+		a1[19], a2[19] = byte(2*g+1), byte(2*g+2)
+		own := []c15Peer{{a1, 1}, {a1, 2}, {a2, 1}, {a2, 2}, {a2, 0}}
+		var lk []c15Lk
+		for _, q := range own {
+			lk = append(lk, c15Lk{q, c15Underlay(q)})
+		}
+		var list []c15Event
+		for k := 6 + r.Intn(7); k > 0; k-- {
+			q := own[r.Intn(len(own))]
+			switch r.Intn(5) {
+			case 0, 1:
+				list = append(list, c15Event{K: "connected", P: &q, Lk: lk})
+			case 2, 3:
+				list = append(list, c15Event{K: "disconnected", P: &q})
+			default:
+				list = append(list, c15Event{K: "add", Ps: []c15Peer{q, own[r.Intn(len(own))]}})
+			}
+		}
+		in.Conc = append(in.Conc, list)
+		in.Probes = append(in.Probes, a1, a2)
+	}
+	return in
+}
+
 func c15Exhaustive(depth int, f func(c15In)) {
 	mk := func(b byte, t int) c15Peer {
 		var a common.Address
@@ -840,5 +1024,17 @@ func TestVerifC15(t *testing.T) {
 		c := c15Classes[i%len(c15Classes)]
 		in, obs := c15Random(e.rng, c.w, e.Slow)
 		emit(c.name, in, obs)
+	}
+	for i := 0; i < e.N/10; i++ {
+		in, obs := c15AnnounceCtx(e.rng, e.Slow)
+		emit("announce-ctx", in, obs)
+	}
+	nc, runMs := 3, 150
+	if e.Tier == "thorough" {
+		nc, runMs = 8, 400
+	}
+	for i := 0; i < nc; i++ {
+		in := c15Concurrent(e.rng, runMs)
+		emit("concurrent", in, c15Run(in, e.Slow))
 	}
 }
